@@ -776,7 +776,12 @@ pub fn gen_c18(rng: &Rng, tier: Tier) -> C18Scn {
     };
     let rl = c18_record(&s, 0).len();
     // capacity >= 2 records so that growth is never needed after the first fill
-    s.cap = (rl * rng.range(2, 6) + rng.range(1, rl)).max(3);
+    let per_buf = rng.range(2, 6);
+    s.cap = (rl * per_buf + rng.range(1, rl)).max(3);
+    // "a few records": the warm-up spans at least two refills of the buffer
+    if !s.sets || s.set_mode == 1 {
+        s.warm = s.warm.max(2 * per_buf + 3);
+    }
     s
 }
 
@@ -984,11 +989,7 @@ impl Check for C18 {
             c.cap = (c18_record(&c, 0).len() * 3 + 1).max(3);
             push(c);
         }
-        if s.warm > 4 {
-            let mut c = s.clone();
-            c.warm = 4;
-            push(c);
-        }
+        // (the warm-up is never shortened: a too short warm-up would change the cause of the report)
         out
     }
     fn rule_text(&self) -> String {
